@@ -57,6 +57,10 @@ STRENGTHENED = {
  "C17-r5-m1": "the returned marginal must not share its dictionary with the source; editing it leaves the source intact",
  "C19-r5-m2": "a numeric dialect, then the sympy dialect again, after a refused (nested) translation",
  "C12-r6-m3": "probabilities of the numeric entries of a state that is still symbolic",
+ "C07-r6-m3": "bases built at special points (0, pi, 2 pi), re-parametrised to the parameters of the case, then modified",
+ "C13-r6-m1": "per-copy results given as collections.Counter objects, combined twice",
+ "C13-r6-m3": "a batch of another shape is a named violation (was a harness crash = machinery failure)",
+ "C19-r6-m3": "sums and products of 9 .. 33 operands (judged numerically)",
 }
 NOT_A_VIOLATION = {
  "C08-r3-m3": "not a violation under the documented reading of controlled(): the unchanged Circuit.controlled already drops idle declared qubits, and the check compares both sides padded to a common width (the statement does not fix the width of a controlled circuit)",
